@@ -61,13 +61,13 @@ package fiber
 //@ ..   indom(c.app.config.TrustProxyConfig.ips, ipString(remoteIP(c.fasthttp, epoch))) ||
 //@ ..   exists(k, 0, len(c.app.config.TrustProxyConfig.ranges), ipnetContains(c.app.config.TrustProxyConfig.ranges[k], remoteIP(c.fasthttp, epoch), epoch)))
 // The same decision in terms of the public configuration, given the proxy set that New() establishes (proxySetWF,
-// zz_contracts_c10_verif.go: postconditions of New): trusted iff the peer's canonical text is a listed bare address, or a
+// zz_contracts_c10_verif.go: postconditions of New): trusted iff a listed bare address DENOTES the peer's address (equal canonical texts - not equal configuration text), or a
 // listed CIDR range contains it, or an enabled class does.
 //@   ensures iff-listed-proxies: proxySetWF(c.app.config.TrustProxyConfig) ==> (result <==> (!c.app.config.TrustProxy ||
 //@ ..   (c.app.config.TrustProxyConfig.Loopback && ipIsLoopback(remoteIP(c.fasthttp, epoch))) ||
 //@ ..   (c.app.config.TrustProxyConfig.Private && ipIsPrivate(remoteIP(c.fasthttp, epoch))) ||
 //@ ..   (c.app.config.TrustProxyConfig.LinkLocal && ipIsLinkLocal(remoteIP(c.fasthttp, epoch))) ||
-//@ ..   exists(i, 0, len(c.app.config.TrustProxyConfig.Proxies), listedAddr(c.app.config.TrustProxyConfig.Proxies[i]) && c.app.config.TrustProxyConfig.Proxies[i] == ipString(remoteIP(c.fasthttp, epoch))) ||
+//@ ..   exists(i, 0, len(c.app.config.TrustProxyConfig.Proxies), listedAddr(c.app.config.TrustProxyConfig.Proxies[i]) && canonIP(c.app.config.TrustProxyConfig.Proxies[i]) == ipString(remoteIP(c.fasthttp, epoch))) ||
 //@ ..   exists(i, 0, len(c.app.config.TrustProxyConfig.Proxies), listedCIDR(c.app.config.TrustProxyConfig.Proxies[i]) && ipnetContains(cidrNet(c.app.config.TrustProxyConfig.Proxies[i]), remoteIP(c.fasthttp, epoch), epoch))))
 
 //@ func (*DefaultCtx).Scheme
@@ -152,15 +152,18 @@ package fiber
 //@   props C10
 //@   modifies app.config.TrustProxyConfig.ranges, elems(app.config.TrustProxyConfig.ranges), heap(MD_string_struct__), heap(MV_string_struct__)
 //@   requires ips-made: app.config.TrustProxyConfig.ips != nil
-//@   ensures listed-address: !strContains(ipAddress, "/") && parseIPok(ipAddress) ==> indom(app.config.TrustProxyConfig.ips, ipAddress)
+// [C10] "a peer inside the set gets the forwarded values": a listed address is filed under its CANONICAL text
+// (canonIP, deps/net.spec: what net.IP.String prints for the address the entry denotes) - the key IsProxyTrusted looks the
+// peer up under - not under the text of the configuration entry ("2001:DB8::1", "0:0:0:0:0:0:0:1", "::ffff:10.0.0.1").
+//@   ensures listed-address-under-its-canonical-text: !strContains(ipAddress, "/") && parseIPok(ipAddress) ==> indom(app.config.TrustProxyConfig.ips, canonIP(ipAddress))
 //@   ensures address-adds-no-range: !strContains(ipAddress, "/") ==> app.config.TrustProxyConfig.ranges == old(app.config.TrustProxyConfig.ranges)
-//@   ensures address-adds-only-itself: forallS(k, k != ipAddress ==> (indom(app.config.TrustProxyConfig.ips, k) <==> old(indom(app.config.TrustProxyConfig.ips, k))))
-//@   ensures unparsable-adds-nothing: !strContains(ipAddress, "/") && !parseIPok(ipAddress) ==> (indom(app.config.TrustProxyConfig.ips, ipAddress) <==> old(indom(app.config.TrustProxyConfig.ips, ipAddress)))
+//@   ensures address-adds-only-itself: forallS(k, k != canonIP(ipAddress) ==> (indom(app.config.TrustProxyConfig.ips, k) <==> old(indom(app.config.TrustProxyConfig.ips, k))))
+//@   ensures unparsable-adds-nothing: !strContains(ipAddress, "/") && !parseIPok(ipAddress) ==> forallS(k, indom(app.config.TrustProxyConfig.ips, k) <==> old(indom(app.config.TrustProxyConfig.ips, k)))
 //@   ensures range-appended: strContains(ipAddress, "/") && cidrOK(ipAddress) ==> len(app.config.TrustProxyConfig.ranges) == old(len(app.config.TrustProxyConfig.ranges)) + 1 &&
 //@ ..   app.config.TrustProxyConfig.ranges[old(len(app.config.TrustProxyConfig.ranges))] == cidrNet(ipAddress)
 //@   ensures ranges-kept: forall(k, 0, old(len(app.config.TrustProxyConfig.ranges)), app.config.TrustProxyConfig.ranges[k] == old(app.config.TrustProxyConfig.ranges[k]))
 //@   ensures bad-range-adds-nothing: strContains(ipAddress, "/") && !cidrOK(ipAddress) ==> app.config.TrustProxyConfig.ranges == old(app.config.TrustProxyConfig.ranges)
-//@   ensures range-adds-no-address: strContains(ipAddress, "/") ==> (indom(app.config.TrustProxyConfig.ips, ipAddress) <==> old(indom(app.config.TrustProxyConfig.ips, ipAddress)))
+//@   ensures range-adds-no-address: strContains(ipAddress, "/") ==> forallS(k, indom(app.config.TrustProxyConfig.ips, k) <==> old(indom(app.config.TrustProxyConfig.ips, k)))
 
 // ---------------------------------------------------------------------------------------------
 // C02: a handler only runs on paths its pattern describes; constraints are enforced
